@@ -2,6 +2,7 @@
 import calendar
 import contextlib
 import inspect
+import io
 import os
 import warnings
 
@@ -106,7 +107,8 @@ def patched_clock(clock):
     U.now_int = clock
     UU.now_int = clock
     try:
-        with warnings.catch_warnings():
+        # (Block.create_multi_tag prints a message when it refuses a call)
+        with warnings.catch_warnings(), contextlib.redirect_stdout(io.StringIO()):
             warnings.simplefilter("ignore")
             yield
     finally:
@@ -281,10 +283,30 @@ class Session:
                 pass
             self.f = None
 
+    def special(self, v):
+        """markers for values JSON cannot carry: "@object" an object(), "@big" an integer outside int64, "@nul" text
+        with an embedded NUL, "@int" a bare int where an entity is expected, ["@ref", i] the entity i"""
+        if isinstance(v, str) and v.startswith("@"):
+            if v == "@object":
+                return object()
+            if v == "@big":
+                return 2 ** 70
+            if v == "@nul":
+                return "a\0b"
+            if v == "@int":
+                return 5
+            if v == "@type_object":
+                return object
+        if isinstance(v, list) and len(v) == 2 and v[0] == "@ref":
+            return self.fetch(v[1])
+        if isinstance(v, list):
+            return [self.special(x) for x in v]
+        return v
+
     def do_create(self, kind, parent, inp, args):
         nix = _nix()
         p = self.fetch(parent)
-        name = args.get("name")
+        name = self.special(args.get("name"))
         typ = args.get("type", "t")
         if kind == "block":
             o = p.create_block(name, typ)
@@ -295,19 +317,33 @@ class Session:
         elif kind == "source":
             o = p.create_source(name, typ)
         elif kind == "data_array":
-            o = p.create_data_array(name, typ, data=args.get("data", [1.0, 2.0, 3.0]))
+            kw = {k: self.special(args[k]) for k in ("dtype", "unit", "label") if k in args}
+            if "shape" in args:
+                kw["shape"] = tuple(args["shape"])
+            o = p.create_data_array(name, typ, data=self.special(args.get("data", [1.0, 2.0, 3.0])), **kw)
         elif kind == "data_frame":
-            o = p.create_data_frame(name, typ, col_dict={"a": int, "b": float},
-                                    data=args.get("data", [(1, 1.5), (2, 2.5)]))
+            types = {"int": int, "float": float, "str": str}
+            cols = args.get("cols", {"a": "int", "b": "float"})
+            if cols is not None:
+                cols = {k: types.get(v, self.special(v)) for k, v in cols.items()}
+            data = args.get("data", [(1, 1.5), (2, 2.5)])
+            if data is not None:
+                data = [tuple(r) if isinstance(r, list) else r for r in data]
+            o = p.create_data_frame(name, typ, col_dict=cols, data=data)
         elif kind == "tag":
-            o = p.create_tag(name, typ, args.get("position", [1.0]))
+            o = p.create_tag(name, typ, self.special(args.get("position", [1.0])))
         elif kind == "multi_tag":
-            pos = self.fetch(args["positions"]) if isinstance(args.get("positions"), int) else args.get("positions")
-            o = p.create_multi_tag(name, typ, pos)
+            pos = self.fetch(args["positions"]) if isinstance(args.get("positions"), int) \
+                else self.special(args.get("positions"))
+            kw = {}
+            if "extents" in args:
+                kw["extents"] = self.fetch(args["extents"]) if isinstance(args["extents"], int) \
+                    else self.special(args["extents"])
+            o = p.create_multi_tag(name, typ, pos, **kw)
         elif kind == "property":
-            o = p.create_property(name, args.get("values", [1, 2]))
+            o = p.create_property(name, self.special(args.get("values", [1, 2])))
         elif kind == "feature":
-            d = self.fetch(args["data"]) if isinstance(args.get("data"), int) else args.get("data")
+            d = self.fetch(args["data"]) if isinstance(args.get("data"), int) else self.special(args.get("data"))
             o = p.create_feature(d, args.get("link_type", "untagged"))
         else:
             raise RuntimeError("unknown kind")
@@ -335,6 +371,7 @@ class Session:
             v = nix.LinkType.Tagged
         if args.get("tuple") and isinstance(v, list):
             v = tuple(v)
+        v = self.special(v)
         # what the attribute reads as before / after the call (through a fresh handle), to know whether the call
         # *changed* it; a method that adds a dimension always changes the entity when it returns
         observe = how == "set" and via is None and m in LISTED
@@ -347,7 +384,7 @@ class Session:
         elif how == "del":
             delattr(o, m.replace("__deleter", ""))
         elif how == "call":
-            getattr(o, m)(*args.get("args", []), **args.get("kwargs", {}))
+            getattr(o, m)(*self.special(args.get("args", [])), **args.get("kwargs", {}))
         elif how == "setitem":
             o[tuple(args["key"]) if isinstance(args["key"], list) else args["key"]] = v
         elif how == "container":
@@ -560,6 +597,77 @@ def _src_link(g):
     return {"how": "container", "container": "sources", "ref": x}
 
 
+def _foreign_link(container, kind):
+    """an entity of the right kind that lives in ANOTHER block: the link list refuses it"""
+    def f(g):
+        x = g.foreign(kind, g.cur)
+        return None if x is None else {"how": "container", "container": container, "ref": x}
+    return f
+
+
+def _wrong_kind_link(container, kind):
+    """an entity of another kind: the link list refuses it"""
+    def f(g):
+        x = g.pick(kind, block_of=g.cur)
+        return None if x is None else {"how": "container", "container": container, "ref": x}
+    return f
+
+
+def _foreign_ref(kind):
+    def f(g):
+        x = g.foreign(kind, g.cur)
+        return None if x is None else {"how": "set", "ref": x}
+    return f
+
+
+# refused calls beyond a wrongly typed argument: entities of another block, of the wrong kind, values that pass the
+# type test but cannot be stored, out-of-range keys, ... (all refused with nothing written: input class "early")
+REFUSED_CALLS = {
+    "block": [("metadata", None, "early", lambda g: _v("@int"))],
+    "group": [
+        ("append", "LinkContainer", "early", _foreign_link("data_arrays", "data_array")),
+        ("append", "LinkContainer", "early", _wrong_kind_link("data_arrays", "tag")),
+        ("append", "LinkContainer", "early", _foreign_link("tags", "tag")),
+        ("append", "SourceLinkContainer", "early", _foreign_link("sources", "source")),
+    ],
+    "data_array": [
+        ("polynom_coefficients", None, "early", lambda g: _v(["a"])),
+        ("polynom_coefficients", None, "early", lambda g: _v([[1.0], [2.0]])),
+        ("label", None, "early", lambda g: _v("@nul")),
+        ("definition", None, "early", lambda g: _v("@nul")),
+        ("append", None, "early", lambda g: _call(["x"])),
+        ("write_direct", None, "early", lambda g: _call([4.0] * (g.size() + 2))),
+        ("__setitem__", None, "early", lambda g: {"how": "setitem", "key": 99, "value": 9.0}),
+        ("append_set_dimension", None, "early", lambda g: _call([1, 2])),
+        ("append_sampled_dimension", None, "early", lambda g: _call("x")),
+        ("append_range_dimension", None, "early", lambda g: _call(["a"])),
+        ("append", "SourceLinkContainer", "early", _foreign_link("sources", "source")),
+    ],
+    "data_frame": [
+        ("units", None, "early", lambda g: _v(["mV"])),
+        ("append_rows", None, "early", lambda g: _call([["x", "y"]])),
+    ],
+    "tag": [
+        ("position", None, "early", lambda g: _v(["not", "a", "position"])),
+        ("extent", None, "early", lambda g: _v(["a"])),
+        ("append", "LinkContainer", "early", _foreign_link("references", "data_array")),
+        ("append", "LinkContainer", "early", _wrong_kind_link("references", "multi_tag")),
+    ],
+    "multi_tag": [
+        ("positions", None, "early", _foreign_ref("data_array")),
+        ("positions", None, "early", lambda g: _v("@int")),
+        ("extents", None, "early", _foreign_ref("data_array")),
+        ("append", "LinkContainer", "early", _foreign_link("references", "data_array")),
+    ],
+    "section": [("link", None, "early", lambda g: _v("@int"))],
+    "property": [
+        ("values", None, "early", lambda g: _v(["a", 1])),
+        ("values", None, "early", lambda g: _v(["@big"])),
+        ("values", None, "early", lambda g: _v(["@nul"])),
+    ],
+    "feature": [("data", None, "early", _foreign_ref("data_array"))],
+}
+
 CATALOGUE = {
     "block": ENTITY_COMMON + META,
     "group": ENTITY_COMMON + META + [
@@ -672,6 +780,64 @@ CATALOGUE = {
     ],
     "file": [],
 }
+for _k, _l in REFUSED_CALLS.items():
+    CATALOGUE[_k] = CATALOGUE[_k] + _l
+
+
+# ---------------------------------------------------------------------------------------
+# refused creations: every way the create_* factories refuse a call AFTER the name checks passed (inside the
+# class's create_new, in a setter run on the half-built entity, in the data conversion) and the name checks themselves.
+# Each builder gets (gen, parent, args) and returns the args of the refused call, or None when not applicable now.
+
+
+def _ra(**kw):
+    return lambda g, parent, args: dict(args, **kw)
+
+
+def _foreign_arg(key, kind, **kw):
+    def f(g, parent, args):
+        x = g.foreign(kind, parent)
+        return None if x is None else dict(args, **dict(kw, **{key: x}))
+    return f
+
+
+def _dup_name(kind):
+    def f(g, parent, args):
+        sib = [x["name"] for x in g.ents if x["alive"] and x["kind"] == kind and x["parent"] == parent
+               and x.get("name")]
+        return dict(args, name=g.rng.choice(sib)) if sib else None
+    return f
+
+
+def _frame_tagged(g, parent, args):
+    x = g.pick("data_frame", block_of=parent)
+    return None if x is None else {"data": x, "link_type": "tagged"}
+
+
+REFUSED_CREATE = {
+    "tag": [("position_text", _ra(position=["not", "a", "position"])), ("position_word", _ra(position="xx"))],
+    "data_array": [("dtype", _ra(dtype="nonsense")), ("object_data", _ra(data=["@object"])),
+                   ("unit_not_text", _ra(unit="@int")), ("label_not_text", _ra(label="@int")),
+                   ("label_nul", _ra(label="@nul")), ("shape_mismatch", _ra(shape=[7])), ("no_data", _ra(data=None))],
+    "multi_tag": [("positions_foreign", _foreign_arg("positions", "data_array")),
+                  ("positions_text", _ra(positions="xx")), ("positions_none", _ra(positions=None)),
+                  ("extents_text", _ra(extents="yy")), ("extents_foreign", _foreign_arg("extents", "data_array"))],
+    "feature": [("data_none", lambda g, p, a: {"data": None, "link_type": "untagged"}),
+                ("data_not_an_entity", lambda g, p, a: {"data": "@int", "link_type": "untagged"}),
+                ("data_foreign", lambda g, p, a: (lambda x: None if x is None else
+                                                  {"data": x, "link_type": "untagged"})(g.foreign("data_array", p))),
+                ("link_type_unknown", lambda g, p, a: dict(a, link_type="bogus")),
+                ("frame_tagged", _frame_tagged)],
+    "property": [("values_mixed", _ra(values=["a", 1])), ("values_outside_int64", _ra(values=["@big"])),
+                 ("values_nul", _ra(values=["@nul"])), ("values_empty", _ra(values=[]))],
+    "data_frame": [("column_type", _ra(cols={"a": "@type_object"})), ("data_misfit", _ra(data=[[1]])),
+                   ("no_columns", _ra(cols=None))],
+}
+for _k in ("block", "section", "group", "source", "data_array", "data_frame", "tag", "multi_tag", "property"):
+    REFUSED_CREATE[_k] = REFUSED_CREATE.get(_k, []) + [
+        ("duplicate_name", _dup_name(_k)), ("invalid_name", _ra(name="a/b")), ("name_not_text", _ra(name="@int"))]
+    if _k != "property":
+        REFUSED_CREATE[_k].append(("type_none", _ra(type=None)))
 
 
 # ---------------------------------------------------------------------------------------
@@ -710,6 +876,12 @@ class Gen:
         if block_of is not None:
             b = self.block_of(block_of)
             c = [i for i in c if self.block_of(i) == b]
+        return self.rng.choice(c) if c else None
+
+    def foreign(self, kind, near):
+        """an entity of `kind` that lives in another block than `near` does"""
+        b = self.block_of(near)
+        c = [i for i in self.alive(kind) if self.block_of(i) != b]
         return self.rng.choice(c) if c else None
 
     def size(self):
@@ -793,7 +965,8 @@ class Gen:
                 out.append(("feature", i))
         return out
 
-    def op_create(self, want=None):
+    def op_create(self, want=None, refuse=None, p_refuse=0.15):
+        """refuse = (label, builder): this refused creation; otherwise refused with probability p_refuse"""
         cands = self.creatable()
         if want:
             cands = [c for c in cands if c[0] == want] or cands
@@ -811,17 +984,16 @@ class Gen:
             if a is None:
                 return None
             args = {"data": a, "link_type": self.rng.choice(["tagged", "untagged", "indexed"])}
-        elif self.rng.random() < 0.08:
-            # refused before anything is written: invalid name, or the name of an existing sibling
+        if refuse is None and self.rng.random() < p_refuse and REFUSED_CREATE.get(kind):
+            refuse = self.rng.choice(REFUSED_CREATE[kind])
+        if refuse is not None:
+            # refused: by the name checks, inside create_new, by a setter run on the half-built entity, ...
+            label, build = refuse
+            args = build(self, parent, args)
+            if args is None:
+                return None
             inp = "early"
-            sib = [x["name"] for x in self.ents if x["alive"] and x["kind"] == kind and x["parent"] == parent
-                   and x.get("name")]
-            if sib and self.rng.random() < 0.6:
-                args["name"] = self.rng.choice(sib)
-                self.count("create.refused.duplicate_name")
-            else:
-                args["name"] = "a/b"
-                self.count("create.refused.invalid_name")
+            self.count("create.refused.%s.%s" % (kind, label))
         if inp == "good":
             self.ents.append({"kind": kind, "parent": parent, "alive": True, "dims": 0, "name": args.get("name")})
         self.count("create.%s.%s" % (kind, inp))
@@ -907,14 +1079,26 @@ class Gen:
             return self.rng.random() < 0.7 or any(x[2] == i for x in self.links) or k == "section"
         return False
 
+    def second_block(self):
+        """a second block holding an array, a tag and a source: the "entity of another block" of refused calls"""
+        b = len(self.ents)
+        ops = []
+        for kind, parent in (("block", 0), ("data_array", b), ("tag", b), ("source", b)):
+            args = {"name": self.word(), "type": "t"}
+            self.ents.append({"kind": kind, "parent": parent, "alive": True, "dims": 0, "name": args["name"]})
+            self.count("create.%s.good" % kind)
+            ops.append(["create", kind, parent, "good", args])
+        return ops
+
     def history(self, length, focus=None):
         ops = [self.op_open()]
         # a base population so that every kind exists early
         for want in ("block", "section", "data_array", "data_array", "tag", "multi_tag", "group", "source",
                      "data_frame", "property", "feature", "section"):
-            op = self.op_create(want)
+            op = self.op_create(want, p_refuse=0)
             if op:
                 ops.append(op)
+        ops += self.second_block()
         while len(ops) < length:
             r = self.rng.random()
             op = None
@@ -945,9 +1129,10 @@ class Gen:
         ops = [self.op_open()]
         for want in ("block", "section", "section", "data_array", "data_array", "data_array", "tag", "multi_tag",
                      "group", "source", "source", "data_frame", "property", "feature"):
-            op = self.op_create(want)
+            op = self.op_create(want, p_refuse=0)
             if op:
                 ops.append(op)
+        ops += self.second_block()
         for auto in (True, False):
             ops.append(["set_auto", auto])
             self.auto = auto
@@ -978,7 +1163,8 @@ R = "@ref"       # ("@ref", scene index): an entity of the scene
 
 def scene_ops(clock, auto):
     """a small file with every entity kind; indices: 1 block, 2/3 sections, 4/5/6 arrays, 7 frame, 8 tag, 9 multi tag
-    (positions 4), 10 group, 11 source, 12 property (of 2), 13 feature of 8 (data 5), 14 feature of 9 (data 6)"""
+    (positions 4), 10 group, 11 source, 12 property (of 2), 13 feature of 8 (data 5), 14 feature of 9 (data 6),
+    15 a second block with 16 array, 17 source, 18 tag (the "entities of another block" of refused calls)"""
     c = lambda kind, parent, **a: ["create", kind, parent, "good", a]
     return [["open", clock, auto],
             c("block", 0, name="b", type="t"), c("section", 0, name="s1", type="t"),
@@ -987,7 +1173,9 @@ def scene_ops(clock, auto):
             c("data_frame", 1, name="f1", type="t"), c("tag", 1, name="t1", type="t"),
             c("multi_tag", 1, name="m1", type="t", positions=4), c("group", 1, name="g1", type="t"),
             c("source", 1, name="o1", type="t"), c("property", 2, name="p1", values=[1, 2]),
-            c("feature", 8, data=5, link_type="untagged"), c("feature", 9, data=6, link_type="untagged")]
+            c("feature", 8, data=5, link_type="untagged"), c("feature", 9, data=6, link_type="untagged"),
+            c("block", 0, name="b2", type="t"), c("data_array", 15, name="fa", type="t"),
+            c("source", 15, name="fo", type="t"), c("tag", 15, name="ft", type="t")]
 
 
 SCENE_INDEX = {"block": 1, "section": 2, "data_array": 4, "data_frame": 7, "tag": 8, "multi_tag": 9, "group": 10,
@@ -1084,6 +1272,74 @@ def matrix_histories(rng, dist=None):
         out.append(("%s.%s" % (kind, m), ops))
     if dist is not None and missing:
         dist["matrix.no_value_classes_for"] = missing
+    return out
+
+
+def shadow_of(ops, rng):
+    """the generator's shadow of the structure a list of creations builds"""
+    g = Gen(rng)
+    for op in ops:
+        if op[0] == "open":
+            g.ents = [{"kind": "file", "parent": 0, "alive": True, "dims": 0}]
+            g.clock, g.auto = op[1], op[2]
+        elif op[0] == "create" and op[3] == "good":
+            g.ents.append({"kind": op[1], "parent": op[2], "alive": True, "dims": 0, "name": op[4].get("name")})
+    return g
+
+
+# listed attributes used to find out, after a refused call, whether attribute changes are still stamped
+PROBES = [("block", "definition"), ("data_array", "label"), ("tag", "type"), ("multi_tag", "definition"),
+          ("section", "repository"), ("group", "definition"), ("source", "type"), ("data_frame", "definition"),
+          ("property", "definition"), ("section", "reference"), ("data_array", "definition")]
+
+
+def refusal_variants():
+    return ["on, set at open", "on, toggled later", "off"]
+
+
+def refusal_histories(rng, variants=None, dist=None, sample=None):
+    """refused calls must not change what later calls do.  A scene; the switch on (set at open or toggled later) or
+    off; then EVERY way of refusing a creation (REFUSED_CREATE: each create_* factory x each reason) and every
+    refused call of the catalogue, in random order, each followed by an advance of the clock and an accepted change
+    of a listed attribute of some entity (which must be stamped / must not be stamped, as the switch was set by the
+    user): -> list of (label, ops)"""
+    out = []
+    for variant in (variants or refusal_variants()):
+        clock = rng.randrange(0, T2100 - 10 ** 7)
+        ops = scene_ops(clock, variant == "on, set at open")
+        g = shadow_of(ops, rng)
+        if variant == "on, toggled later":
+            ops.append(["set_auto", True])
+        recipes = []
+        for kind, lst in sorted(REFUSED_CREATE.items()):
+            recipes += [("create", kind, r) for r in lst]
+        for kind in KINDS:
+            recipes += [("call", kind, e) for e in CATALOGUE[kind] if e[2] == "early"]
+        rng.shuffle(recipes)
+        if sample is not None and (variant == "off" or variants is None or len(variants) == 1):
+            recipes = recipes[:sample]       # (quick tier) the on-variant of the oracle always runs them all
+        n = 0
+        for what, kind, r in recipes:
+            if what == "create":
+                op = g.op_create(kind, refuse=r)
+                if op is not None and op[1] != kind:
+                    op = None
+            else:
+                t = g.pick(kind)
+                op = None if t is None else g.op_call(t, r)
+            if op is None:
+                continue
+            clock += rng.choice([1, 2, 59, 3600])
+            ops += [["set_clock", clock], op]
+            pk, pm = PROBES[n % len(PROBES)]
+            n += 1
+            clock += rng.choice([1, 2, 59, 3600])
+            ops += [["set_clock", clock],
+                    ["call", SCENE_INDEX[pk], None, pm, "good", {"how": "set", "value": g.word(), "h": rng.choice([0, 0, 1])}]]
+            if dist is not None:
+                key = "refused_then_probe.%s.%s" % (what, kind)
+                dist[key] = dist.get(key, 0) + 1
+        out.append(("refusals: switch " + variant, ops))
     return out
 
 
@@ -1247,6 +1503,10 @@ def correspondence(ctx):
         opdist["matrix." + label] = len([op for op in h if op[0] == "call"])
     if "matrix.no_value_classes_for" in holes:
         opdist["matrix.no_value_classes_for"] = holes["matrix.no_value_classes_for"]
+    rh = refusal_histories(rng, [rng.choice(refusal_variants())] if ctx.quick() else None, opdist,
+                           sample=60 if ctx.quick() else None)
+    for label, h in rh:
+        histories.append((label, h))
     fh = force_histories(rng)
     if ctx.quick():
         fh = rng.sample(fh, 3)
@@ -1418,15 +1678,42 @@ def check_history(ctx, ops, tag):
     sess = Session(ctx.tmpfile("c19-o%s.nix" % tag), clock)
     fails = []
     n = 0
+    ops = list(ops)          # probes may be inserted (see below): the reported history is the one that was run
+    # the switch as the USER set it (at open time, by assignment, by re-opening): "with automatic timestamps
+    # enabled / disabled" in the property text is this setting, not whatever the File object holds after some call
+    user_auto = None
+    probed = None
+    stats = ctx.__dict__.setdefault("c19_oracle_stats", {"switch_mismatch": 0, "probes": 0})
     with patched_clock(clock):
         try:
             prev = None
-            for k, op in enumerate(ops):
+            k = -1
+            while k + 1 < len(ops):
+                k += 1
+                op = ops[k]
                 before = prev or {}
-                auto_before = bool(sess.f.auto_update_timestamps) if sess.f is not None else None
+                auto_before = user_auto
                 clock_before = clock.t
                 out = sess.apply(op)
                 n += 1
+                if out.get("res") == "done":
+                    if op[0] == "open":
+                        user_auto = bool(op[2])
+                    elif op[0] in ("set_auto", "reopen"):
+                        user_auto = bool(op[1])
+                # the File object's switch differs from what the user set: some call changed it as a side effect.
+                # Not by itself something the property forbids - but every later attribute change is then stamped
+                # (or not) against the user's setting: insert probes right here (clock advanced, `definition` /
+                # `type` of a few entities changed) so that the history shows it.
+                if user_auto is not None and "auto" in out and out["auto"] != user_auto and probed != out["auto"] \
+                        and not (k + 1 < len(ops) and isinstance(ops[k + 1][-1], dict) and ops[k + 1][-1].get("probe")):
+                    probed = out["auto"]
+                    stats["switch_mismatch"] += 1
+                    ins = probe_ops(sess, clock.t)
+                    stats["probes"] += len(ins) // 2
+                    ops[k + 1:k + 1] = ins
+                elif "auto" in out and out["auto"] == user_auto:
+                    probed = None
                 after = {(r[0], "a fresh handle"): (r[1], r[2]) for r in out["stamps"]}
                 for r in sess.last_views:
                     after[(r[0], "the handle " + r[1])] = (r[2], r[3])
@@ -1498,6 +1785,24 @@ def check_history(ctx, ops, tag):
     return n, fails
 
 
+def probe_ops(sess, now):
+    """clock advanced + an accepted change of a listed attribute, for a few live entities of different kinds"""
+    out = []
+    t = now if 0 <= now < T2100 - 100 else 1000000000
+    seen = set()
+    for i in sess.alive():
+        kind = sess.ents[i]["kind"]
+        if kind in ("file", "feature") or kind in seen or len(seen) >= 3:
+            continue
+        seen.add(kind)
+        t += 1
+        sess.counter += 1
+        out.append(["set_clock", t, {"probe": True}])
+        out.append(["call", i, None, "definition", "good",
+                    {"how": "set", "value": "probe %d" % sess.counter, "probe": True}])
+    return out
+
+
 FIXED_CASES = None
 
 
@@ -1523,6 +1828,12 @@ def oracle(ctx, broken, hints):
         elif isinstance(h, list) and h and h[0] == "time_to_str" and isinstance(h[1], int) and 0 <= h[1] < T2100:
             pass
     hist += fixed_histories()
+    # refused calls of every creating / mutating kind, each followed by a change that must (not) be stamped; the quick
+    # tier runs the switch-on variant set at open or toggled later (alternating with the seed) and the switch-off one
+    rv = refusal_variants()
+    if not broken and ctx.quick():
+        rv = [rv[rng.randrange(2)], rv[2]]
+    hist += [h for _, h in refusal_histories(rng, rv, sample=None if broken or not ctx.quick() else 40)]
     hist += [h for _, h in force_histories(rng)]
     hist += [h for _, h in matrix_histories(rng)]
     g = Gen(rng)
@@ -1549,7 +1860,8 @@ def oracle(ctx, broken, hints):
     failures.sort(key=lambda f: len(core.canon(f.input)))
     # shrink the history of the reported failures to what is needed
     failures = [shrink_failure(ctx, f) for f in failures[:3]] + failures[3:]
-    return {"evaluations": evals, "failures": failures, "histories": len(hist), "systematic_histories": systematic}
+    return {"evaluations": evals, "failures": failures, "histories": len(hist), "systematic_histories": systematic,
+            "switch_checks": getattr(ctx, "c19_oracle_stats", {})}
 
 
 def shrink_failure(ctx, f):
@@ -1568,19 +1880,38 @@ def shrink_failure(ctx, f):
             if x.what.split(" of entity")[0] == what.split(" of entity")[0] and x.site == f.site:
                 return x
         return None
-    # remove ops that are neither `open` nor creations (indices stay valid)
-    k = len(ops) - 2
-    budget = 60
+    # remove ops that are neither `open` nor accepted creations (entity indices stay valid): delta debugging over
+    # the removable positions (chunks first, then single operations); the failing operation itself stays
+    def removable(h):
+        return [i for i in range(1, len(h) - 1)
+                if not (h[i][0] == "open" or (h[i][0] == "create" and h[i][3] == "good"))]
     best = f
-    while k >= 1 and budget > 0:
-        if ops[k][0] not in ("create", "open"):
-            cand = ops[:k] + ops[k + 1:]
+    budget = 70
+    rem = removable(ops)
+    n = 2
+    while rem and budget > 0:
+        size = max(1, (len(rem) + n - 1) // n)
+        chunks = [rem[i:i + size] for i in range(0, len(rem), size)]
+        reduced = False
+        for ch in chunks:
+            if budget <= 0:
+                break
+            drop = set(ch)
+            cand = [op for i, op in enumerate(ops) if i not in drop]
             budget -= 1
             x = still(cand)
             if x is not None:
-                ops = cand
+                # what was run (up to the failing operation, probes included) is the new history
+                ops = list(x.input["history"])
                 best = x
-        k -= 1
+                rem = removable(ops)
+                n = max(n - 1, 2)
+                reduced = True
+                break
+        if not reduced:
+            if size == 1:
+                break
+            n = min(len(rem), n * 2)
     return best
 
 
